@@ -3,6 +3,7 @@
 from __future__ import annotations
 
 from decimal import Decimal
+from decimal import InvalidOperation
 from functools import wraps
 from typing import Any
 from typing import Callable
@@ -98,7 +99,7 @@ def decimal_arg(val: Any, default: int | Decimal | None = None) -> int | Decimal
 
         try:
             return Decimal(val)
-        except ValueError as err:
+        except (ValueError, InvalidOperation) as err:
             if default is not None:
                 return default
             raise LiquidTypeError(
